@@ -72,7 +72,14 @@ func init() {
 			} else {
 				backs[f] = clampN(v)
 			}
-			valids[f] = b2i(roman.Valid(b, 0) == nil)
+			switch f % 3 {
+			case 0:
+				valids[f] = b2i(roman.Valid(string(b), 0) == nil)
+			case 1:
+				valids[f] = b2i(roman.Valid(b, 0) == nil)
+			default:
+				valids[f] = b2i(roman.Valid(myBytes(b), 0) == nil)
+			}
 		}
 		e["outs"], e["backs"], e["valids"] = outs, backs, valids
 		return e
@@ -103,7 +110,7 @@ func init() {
 		e["vs"], e["vR"], e["vr"] = S(fmt.Sprintf("%s", n)), S(fmt.Sprintf("%R", n)), S(fmt.Sprintf("%r", n))
 		e["vL"], e["vl"] = S(fmt.Sprintf("%L", n)), S(fmt.Sprintf("%l", n))
 		var r roman.Number = 987654
-		if err := r.UnmarshalText(mt); err != nil {
+		if err := r.UnmarshalText(reused(mt)); err != nil {
 			e["back"] = -1
 		} else {
 			e["back"] = clampN(r)
